@@ -1063,3 +1063,63 @@ Proof.
   repeat (match type of H with (andb _ _ = true) => apply andb_true_iff in H as [H ?] end).
   apply inv_deps_closed. assumption.
 Qed.
+
+(* ------------------------------------------------------------------------------------------ *)
+(* 9. declarations_commute, pair (define, define) in the fresh fragment                        *)
+(* ------------------------------------------------------------------------------------------ *)
+Lemma nst_planned_after_undeclared v :
+  nst FPlanned (Some (nst FUndeclared v)) = nst FPlanned v.
+Proof. destruct v as [[]|]; reflexivity. Qed.
+Lemma nst_undeclared_twice v :
+  nst FUndeclared (Some (nst FUndeclared v)) = nst FUndeclared v.
+Proof. destruct v as [[]|]; reflexivity. Qed.
+Lemma nhash_planned_after_undeclared (v : option (fstate * option N)) :
+  nhash FPlanned (Some (nst FUndeclared (old_state v), nhash FUndeclared v)) = nhash FPlanned v.
+Proof. destruct v as [[[] h]|]; reflexivity. Qed.
+Lemma nhash_undeclared_twice (v : option (fstate * option N)) :
+  nhash FUndeclared (Some (nst FUndeclared (old_state v), nhash FUndeclared v)) = nhash FUndeclared v.
+Proof. destruct v as [[[] h]|]; reflexivity. Qed.
+Lemma nst_volatile v : nst FVolatile v = FVolatile.
+Proof. destruct v as [[]|]; reflexivity. Qed.
+Lemma nhash_volatile (v : option (fstate * option N)) : nhash FVolatile v = None.
+Proof. destruct v as [[[] h]|]; reflexivity. Qed.
+
+(* both requests applied, expressed in the look-ups of the common state s; the form is symmetric
+   in the two requests up to the order of exclusive cases *)
+Record two_defines (c1 : key) (L1 : str) (i1 e1 o1 v1 : list str) (n1 : need)
+                   (c2 : key) (L2 : str) (i2 e2 o2 v2 : list str) (n2 : need) (s x : st) : Prop := mkTD {
+  td_node : forall k, node_view k x =
+      if key_eqb k (KStep, L1) then Some (Some c1, is_detached c1 s)
+      else if key_eqb k (KStep, L2) then Some (Some c2, is_detached c2 s)
+      else if in_files k o1 || in_files k v1 then Some (Some (KStep, L1), is_detached c1 s)
+      else if in_files k o2 || in_files k v2 then Some (Some (KStep, L2), is_detached c2 s)
+      else if (in_files k i1 || in_files k i2) && match k with (KFile, l) => recreated s l | _ => false end
+           then Some (None, true)
+      else node_view k s;
+  td_file : forall l, file_view l x =
+      if mem_str l o1 || mem_str l o2
+      then Some (nst FPlanned (old_state (file_view l s)), nhash FPlanned (file_view l s))
+      else if mem_str l v1 || mem_str l v2 then Some (FVolatile, None)
+      else if (mem_str l i1 || mem_str l i2) && recreated s l
+           then Some (nst FUndeclared (old_state (file_view l s)), nhash FUndeclared (file_view l s))
+      else file_view l s;
+  td_step : forall l, step_view l x =
+      if str_eqb l L1 then Some (SPending, n1, false, 0, 0)
+      else if str_eqb l L2 then Some (SPending, n2, false, 0, 0) else step_view l s;
+  td_dep : forall a b, find_dep a b x =
+      if key_eqb b (KStep, L1) && in_files a i1 then Some false
+      else if key_eqb b (KStep, L2) && in_files a i2 then Some false
+      else if in_files b o1 || in_files b v1
+           then (if key_eqb a (KStep, L1) then Some false else None)
+      else if in_files b o2 || in_files b v2
+           then (if key_eqb a (KStep, L2) then Some false else None)
+      else if (in_files b i1 || in_files b i2) && match b with (KFile, l) => recreated s l | _ => false end
+           then None
+      else find_dep a b s;
+  td_hash : forall y, has_hash y x =
+      has_hash y s && negb (existsb (fun l => lostb s l y) o1) && negb (existsb (fun l => lostb s l y) v1)
+                   && negb (existsb (fun l => lostb s l y) o2) && negb (existsb (fun l => lostb s l y) v2);
+  td_env : forall st0 nm, find_env st0 nm x =
+      if str_eqb st0 L1 && mem_str nm e1 then Some false
+      else if str_eqb st0 L2 && mem_str nm e2 then Some false else find_env st0 nm s;
+  td_cap : defer_cap x = defer_cap s }.
